@@ -34,6 +34,7 @@ import (
 	"github.com/anyproto/any-sync/commonspace/syncstatus"
 	"github.com/anyproto/any-sync/net/peer"
 	"github.com/anyproto/any-sync/util/cidutil"
+	"github.com/anyproto/any-sync/util/crypto"
 
 	"verifharness/vfutil"
 )
@@ -49,6 +50,7 @@ type treeWorld struct {
 	// derivedRoot: root of a derived tree (unsigned, no identity); prefixDerived: d1 d2 on it
 	derivedRoot   *rawCh
 	prefixDerived []*rawCh
+	orphans       map[string]string // state kind -> id of the unattachable element of the orphan batches
 	// prefixFull: c1 c2 ; prefixReduced: c1 c2 s3 c4 c5
 	prefixFull, prefixReduced []*rawCh
 	// next valid messages per state
@@ -206,6 +208,35 @@ func buildTreeWorld() *treeWorld {
 		tw.ids["derived"] = map[string]string{"ancestor": d1.Id, "nonsnapshot": d1.Id, "trimmed": ""}
 		closeDB(db3, p3)
 	}
+	// batches with an element that can never be attached: O is a snapshot on top of a change X that
+	// is never sent; P, C are the valid chain on the receiver's head. Parent-first and child-first.
+	orphan := func(root *rawCh, prefix []*rawCh) *rawCh {
+		dbo, po := newDB()
+		defer closeDB(dbo, po)
+		to := must(objecttree.BuildObjectTree(newTreeStorage(dbo, root), memberAcl(tw.author)))
+		to.Lock()
+		defer to.Unlock()
+		must(to.AddRawChanges(ctx, objecttree.RawChangesPayload{NewHeads: []string{prefix[len(prefix)-1].Id}, RawChanges: prefix}))
+		must(to.AddContent(ctx, objecttree.SignableChangeContent{Data: []byte("never sent"), Key: key, ShouldBeEncrypted: true, DataType: "text"}))
+		return must(to.PrepareChange(objecttree.SignableChangeContent{Data: []byte("orphan snapshot"), Key: key, IsSnapshot: true, ShouldBeEncrypted: true, DataType: "text"}))
+	}
+	tw.orphans = map[string]string{}
+	for kind, prefix := range map[string][]*rawCh{"full": tw.prefixFull, "reduced": tw.prefixReduced, "derived": tw.prefixDerived} {
+		root := tw.root
+		if kind == "derived" {
+			root = tw.derivedRoot
+		}
+		o := orphan(root, prefix)
+		chain := tw.next[kind]["chain"]
+		tw.next[kind]["orphan-batch"] = []*rawCh{o, chain[0], chain[1]}
+		tw.next[kind]["orphan-batch-childfirst"] = []*rawCh{chain[1], chain[0], o}
+		tw.orphans[kind] = o.Id
+	}
+	// the keys the trees' change payloads are encrypted with (derived from the space read keys)
+	for _, id := range []string{tw.root.Id, tw.derivedRoot.Id} {
+		deriver := crypto.NewKeyDeriver(fmt.Sprintf(crypto.AnysyncTreePath, id))
+		regDerived(func(raw []byte) (crypto.SymKey, error) { return deriver.DeriveKey(raw) })
+	}
 	tw.ids["full"] = map[string]string{"ancestor": c1.Id, "nonsnapshot": c1.Id, "trimmed": ""}
 	tw.ids["reduced"] = map[string]string{"ancestor": s3.Id, "nonsnapshot": c4.Id, "trimmed": c1.Id}
 	return tw
@@ -261,6 +292,9 @@ func treeEnv(g groupSpec, w *treeWorld) *renderEnv {
 	env := newRenderEnv(caseRand(g))
 	for k, v := range w.ids[kind] {
 		env.ids[k] = v
+	}
+	if strings.Contains(g.V, "orphan") {
+		env.ids["inbatch-orphan"] = w.orphans[kind]
 	}
 	env.fix = treeFix(w)
 	return env
@@ -342,8 +376,15 @@ type treeEP struct {
 	mode string // "add" | "unpack"
 }
 
-func headUpdateBytes(changes []*rawCh) []byte {
-	hu := &treechangeproto.TreeHeadUpdate{Heads: []string{changes[len(changes)-1].Id}, Changes: changes}
+func batchHead(variant string, changes []*rawCh) string {
+	if strings.HasSuffix(variant, "childfirst") {
+		return changes[0].Id
+	}
+	return changes[len(changes)-1].Id
+}
+
+func headUpdateBytes(variant string, changes []*rawCh) []byte {
+	hu := &treechangeproto.TreeHeadUpdate{Heads: []string{batchHead(variant, changes)}, Changes: changes}
 	return must(hu.MarshalVT())
 }
 
@@ -358,7 +399,7 @@ func (e *treeEP) base(g groupSpec) (*base, error) {
 	if e.mode == "unpack" {
 		b.valid = must(chs[0].MarshalVT())
 	} else {
-		b.valid = headUpdateBytes(chs)
+		b.valid = headUpdateBytes(g.V, chs)
 	}
 	return b, nil
 }
@@ -448,8 +489,12 @@ func wrapSync(content *treechangeproto.TreeSyncContentValue, root *rawCh) []byte
 func (e *syncEP) base(g groupSpec) (*base, error) {
 	w := getTreeWorld()
 	kind, _ := stateKind(g.St)
-	next := w.next[kind]["chain"]
-	heads := []string{next[len(next)-1].Id}
+	batch := "chain"
+	if i := strings.Index(g.V, "-orphan"); i >= 0 {
+		batch = "orphan-batch" + strings.TrimPrefix(g.V[i:], "-orphan")
+	}
+	next := w.next[kind][batch]
+	heads := []string{batchHead(g.V, next)}
 	prefix := w.prefixFull
 	if kind == "reduced" {
 		prefix = w.prefixReduced
@@ -461,7 +506,11 @@ func (e *syncEP) base(g groupSpec) (*base, error) {
 		snapshotPath = []string{w.root.Id}
 	}
 	b := &base{env: treeEnv(g, w)}
-	switch g.V {
+	v := g.V
+	if i := strings.Index(v, "-orphan"); i >= 0 {
+		v = v[:i]
+	}
+	switch v {
 	case "headUpdate":
 		b.valid = wrapSync(&treechangeproto.TreeSyncContentValue{Value: &treechangeproto.TreeSyncContentValue_HeadUpdate{
 			HeadUpdate: &treechangeproto.TreeHeadUpdate{Heads: heads, Changes: next, SnapshotPath: snapshotPath}}}, w.root)
